@@ -9,9 +9,13 @@
 (***************************************************************************)
 EXTENDS Integers, Sequences
 InputsIntact(args) == \A i \in 1..Len(args) : args[i].role = "in" => args[i].same
+\* the outputs own their storage: overwriting everything reachable from them after the call leaves every input as it was
+\* (otherwise a later write into the receiver would change an object that is not an argument of that write)
+Separate(args) == \A i \in 1..Len(args) : args[i].role = "in" => args[i].sep
 FrameOK(e) ==
     /\ ~e.panic /\ ~e.dpanic
     /\ InputsIntact(e.args) /\ InputsIntact(e.dargs)      \* whether or not the call succeeds
+    /\ Separate(e.args) /\ Separate(e.dargs)
     /\ e.err = e.derr                                     \* the outcome does not depend on the receiver's past
     /\ (~e.err => e.again)                                \* nor does the value written to the outputs
 =============================================================================
